@@ -204,6 +204,7 @@ class Result(object):
         self.parent = {}
         self.alphabet = None
         self.obs_regstores = {}
+        self.obs_heapstores = {}
         self.obs_ip4 = {}
         self.obs_opaque = set()
         self.obs_free_members = set()
@@ -216,6 +217,7 @@ def explore(ctx, suf, entry, setup, monitor, base_class_of, nul=False, max_state
     """monitor: object with init(), on_symbol(m, cls, alphabet), on_eof(m), final(m, st, value, machine, result, node)"""
     irp = ctx.irp
     summaries = make_summaries(suf)
+    summaries.pop(entry, None)
     funcs = reachable_interpreted(irp, entry, summaries)
     al = initial_alphabet(suf, base_class_of, seed_sets(irp, funcs) + list(extra_sets))
     t0 = time.time()
@@ -332,6 +334,9 @@ def _explore_once(mach, entry, setup, monitor, max_states):
         for o in obs:
             if o[0] == 'reg-store':
                 res.obs_regstores.setdefault((o[1], o[3]), set()).add((o[2], o[4]))
+            elif o[0] == 'heap-store':
+                if o[2] and o[2][-1] in ('first', 'afterLast'):
+                    res.obs_heapstores.setdefault((o[2], o[4]), set()).add((o[3], st.eof))
             elif o[0] == 'ip4-call':
                 res.obs_ip4.setdefault((o[3], o[2]), set()).add(o[1])
             elif o[0] == 'opaque-call':
